@@ -17,8 +17,8 @@ import (
 func init() {
 	Register(&Prop{
 		ID:   "C07",
-		Expl: "Decides on the maker tables and the SSA of the broadcast path: (R1) from every state reachable after a successful opening broadcast only claimed-by-preimage/coop/CSV terminals are reachable (never the cancelled state); (R2) after the wallet call that broadcasts has succeeded there is no failure exit — in the broadcast action and the helpers between it and the wallet call (its record fields are assigned on every success path) and inside every CreateOpeningTransaction / CreateAndBroadcastTransaction implementation incl. in-module wrappers around the broadcast primitive (no error return after the broadcast primitive except the verdict of an output locator); (R3) every post-broadcast waiting state arms the CSV watch on the announced (txid, vout), accepts the CSV event, and that event leads to a CSV-claim action whose only failure exit is a retry self-loop; the CSV event is injected by the registered CSV callback; (R4) no post-broadcast state is FailOnrecover and the broadcast call is guarded by the persisted record; (R5) a failing cooperative claim falls back to a CSV-armed waiting state; (R6) whether anything durable is written between the state transition and the broadcast action.",
-		NotD: "That the refund transaction confirms; wallet and chain behaviour; that watchers call back truthfully (C20).",
+		Expl: "Decides on the maker tables and the SSA of the broadcast path: (R1) from every state reachable after a successful opening broadcast only claimed-by-preimage/coop/CSV terminals are reachable (never the cancelled state); (R2) after the wallet call that broadcasts has succeeded there is no failure exit — in the broadcast action and the helpers between it and the wallet call (its record fields are assigned on every success path) and inside every CreateOpeningTransaction / CreateAndBroadcastTransaction implementation incl. in-module wrappers around the broadcast primitive (no error return after the broadcast primitive except the verdict of an output locator); (R3) every post-broadcast waiting state arms the CSV watch on the announced (txid, vout), accepts the CSV event, and that event leads to a CSV-claim action whose only failure exit is a retry self-loop; the CSV event is injected by the registered CSV callback; (R4) no post-broadcast state is FailOnrecover and the broadcast call is guarded by the persisted record; (R5) a failing cooperative claim falls back to a CSV-armed waiting state; (R6) whether anything durable is written between the state transition and the broadcast action; (R7) no state at or after the broadcast is FailOnrecover with an Event_ActionFailed edge from which a non-claimed terminal is reachable (Recover injects that event; the record of the broadcast is written before the next state is); (R8) in every AddWaitForCsvTx implementation a 'already registered' map entry that the function both tests (and returns on) and sets is deleted again on every return that happens before the goroutine/subscription that eventually deletes it was started (a failed subscription must not block all later registrations of the CSV watch); the same analysis of AddWaitForConfirmationTx is reported as information only.",
+		NotD: "That the refund transaction confirms; wallet and chain behaviour; that watchers call back truthfully (C20); whether a subscription that was started keeps running (R8 decides only the register-or-rollback discipline of the dedupe maps).",
 		Run:  runC07,
 	})
 }
@@ -54,6 +54,8 @@ func runC07(c *an.Check) {
 	c.Rule("C07.R4", "post-broadcast states are not FailOnrecover; broadcast call guarded by OpeningTxBroadcasted == nil")
 	c.Rule("C07.R5", "a failing cooperative claim returns to a CSV-armed waiting state")
 	c.Rule("C07.R6", "a durable write lies between the state transition and the execution of the broadcast action")
+	c.Rule("C07.R7", "a FailOnrecover state at or after the broadcast must not lead, through the Event_ActionFailed that Recover injects, to a terminal that is no claim")
+	c.Rule("C07.R8", "register-or-rollback: a dedupe entry that a CSV watch registration tests and sets survives a return only if the goroutine that deletes it was started")
 	if !needEffects(c, fxOpenTx, fxWaitCsv, fxCsvSpend, fxCoopSpend, fxPayNotifier, fxStoreUpdate) {
 		return
 	}
@@ -183,6 +185,52 @@ func runC07(c *an.Check) {
 					c.Decide(good, "C07.R5", t.key(s)+" coop-failure", t.pos(c, s), "failed cooperative claim waits for the CSV", "a failed cooperative claim (e.g. bad key in coop_close) does not return to a CSV-armed waiting state")
 				}
 			}
+			// R7: Recover() answers a FailOnrecover state with Event_ActionFailed. The
+			// record is written after every action, so a swap found in the broadcast
+			// state (or any later one) may already hold the broadcast: the injected
+			// failure must not lead to a non-claimed terminal.
+			for _, s := range t.T.Order {
+				if s != b && !post[s] {
+					continue
+				}
+				e := t.T.States[s]
+				if e.Terminal() {
+					continue
+				}
+				cons := t.key(s) + " recover-after-broadcast"
+				if !e.FailOnRecover {
+					if s == b {
+						c.OK("C07.R7", cons, t.pos(c, s), "the broadcast state is re-executed on recovery (its action is guarded by the persisted record), not failed")
+					}
+					continue
+				}
+				nx, ok := e.Events[evFailed]
+				if !ok {
+					c.Bad("C07.R7", cons, t.pos(c, s), "the state is FailOnrecover but accepts no "+evFailed+": after a restart Recover's event is rejected, the action (and with it the CSV watch) never runs again and the broadcast output is not refunded")
+					continue
+				}
+				var lost []string
+				unknownTerm := false
+				fr := t.T.Reach(nx)
+				for _, x := range t.T.Order {
+					if fr[x] && t.T.States[x].Terminal() && !allowed[x] {
+						if !lnOK || len(allowed) == 0 {
+							unknownTerm = true
+						} else {
+							lost = append(lost, x+" via "+strings.Join(t.T.FindPath(nx, x), " ; "))
+						}
+					}
+				}
+				switch {
+				case len(lost) > 0:
+					c.Bad("C07.R7", cons, t.pos(c, s),
+						"the state is FailOnrecover and the record is written after every action: a crash after the broadcast was recorded and before the next state is stored leaves the swap here; Recover() then injects "+evFailed+" -> "+nx+", from where a terminal that is no claim is reachable ("+strings.Join(lost, " | ")+"): the swap finishes without a CSV watch and the broadcast output is never refunded")
+				case unknownTerm:
+					c.Unknown("C07.R7", cons, t.pos(c, s), "the claimed terminal states cannot be identified (payment-callback events or spend effects did not resolve)")
+				default:
+					c.OK("C07.R7", cons, t.pos(c, s), "the failure injected on recovery leads only to claimed terminals")
+				}
+			}
 		}
 	}
 
@@ -308,6 +356,10 @@ func runC07(c *an.Check) {
 		return
 	}
 	c07WriteAhead(c, se)
+
+	// R8: the CSV (and, as information, confirmation) watch registrations of the
+	// TxWatcher implementations
+	c07RegisterOrRollback(c)
 }
 
 // c07ArmsCsv: R3, the CSV watch of a waiting state is registered on the
@@ -912,6 +964,320 @@ func c07WriteAhead(c *an.Check, se *ssa.Function) {
 		return
 	}
 	c.Anchor("SendEvent: Action.Execute / state transition / Store.UpdateData not found (directly or through in-module helpers)")
+}
+
+// ---- R8: register-or-rollback ---------------------------------------------------------------
+
+// c07MapField: v is (a load of) a map-typed struct field; returns "Type.field".
+func c07MapField(v ssa.Value) string {
+	for {
+		switch x := v.(type) {
+		case *ssa.UnOp:
+			if x.Op != token.MUL {
+				return ""
+			}
+			fa, ok := x.X.(*ssa.FieldAddr)
+			if !ok {
+				return ""
+			}
+			if _, isMap := x.Type().Underlying().(*types.Map); !isMap {
+				return ""
+			}
+			return an.FieldName(fa.X.Type(), fa.Field)
+		case *ssa.Field:
+			if _, isMap := x.Type().Underlying().(*types.Map); !isMap {
+				return ""
+			}
+			return an.FieldName(x.X.Type(), x.Field)
+		case *ssa.ChangeType:
+			v = x.X
+			continue
+		case *ssa.Phi:
+			name := ""
+			for _, e := range x.Edges {
+				n := c07MapField(e)
+				if n == "" || (name != "" && n != name) {
+					return ""
+				}
+				name = n
+			}
+			return name
+		}
+		return ""
+	}
+}
+
+// c07MapOps: what fn itself does with map field `field`.
+type c07MapOps struct {
+	tests   []*ssa.Lookup
+	marks   []ssa.Instruction
+	deletes []ssa.Instruction
+}
+
+func c07OpsOf(fn *ssa.Function) map[string]*c07MapOps {
+	out := map[string]*c07MapOps{}
+	get := func(f string) *c07MapOps {
+		if out[f] == nil {
+			out[f] = &c07MapOps{}
+		}
+		return out[f]
+	}
+	for _, b := range fn.Blocks {
+		for _, in := range b.Instrs {
+			switch x := in.(type) {
+			case *ssa.Lookup:
+				if f := c07MapField(x.X); f != "" {
+					get(f).tests = append(get(f).tests, x)
+				}
+			case *ssa.MapUpdate:
+				if f := c07MapField(x.Map); f != "" {
+					get(f).marks = append(get(f).marks, x)
+				}
+			case ssa.CallInstruction:
+				if bi, ok := x.Common().Value.(*ssa.Builtin); ok && bi.Name() == "delete" && len(x.Common().Args) == 2 {
+					if f := c07MapField(x.Common().Args[0]); f != "" {
+						get(f).deletes = append(get(f).deletes, x)
+					}
+				}
+			}
+		}
+	}
+	return out
+}
+
+// c07Touches: g, its closures, or what it runs synchronously / by defer (depth
+// <= 3) performs the given kind of operation on map field `field`.
+func c07Touches(w *an.World, g *ssa.Function, field string, kind string, depth int, seen map[*ssa.Function]bool) bool {
+	if g == nil || g.Blocks == nil || seen[g] || depth > 3 {
+		return false
+	}
+	seen[g] = true
+	if ops := c07OpsOf(g)[field]; ops != nil {
+		switch kind {
+		case "delete":
+			if len(ops.deletes) > 0 {
+				return true
+			}
+		case "mark":
+			if len(ops.marks) > 0 {
+				return true
+			}
+		case "test":
+			if len(ops.tests) > 0 {
+				return true
+			}
+		}
+	}
+	for _, call := range an.Calls(g) {
+		if _, isGo := call.(*ssa.Go); isGo {
+			continue
+		}
+		for _, h := range c07Callees(w, call) {
+			if c07Touches(w, h, field, kind, depth+1, seen) {
+				return true
+			}
+		}
+		if mc, ok := call.Common().Value.(*ssa.MakeClosure); ok {
+			if h, ok := mc.Fn.(*ssa.Function); ok && c07Touches(w, h, field, kind, depth+1, seen) {
+				return true
+			}
+		}
+	}
+	return false
+}
+
+// c07TestReturns: the lookup is used as an "already registered" test: on the
+// branch where the key is present the function returns without reaching `until`.
+func c07TestReturns(lk *ssa.Lookup, marks []ssa.Instruction) bool {
+	var conds []ssa.Value
+	if lk.CommaOk {
+		if lk.Referrers() != nil {
+			for _, r := range *lk.Referrers() {
+				if ex, ok := r.(*ssa.Extract); ok && ex.Index == 1 {
+					conds = append(conds, ex)
+				}
+			}
+		}
+	} else if b, ok := lk.Type().Underlying().(*types.Basic); ok && b.Info()&types.IsBoolean != 0 {
+		conds = append(conds, lk) // map[K]bool read as a condition
+	}
+	for _, cv := range conds {
+		tE, _ := an.BoolEdges(cv)
+		for _, e := range tE {
+			reach := an.ReachBlocks([]*ssa.BasicBlock{e.To()}, nil, nil)
+			hitsMark := false
+			for _, m := range marks {
+				if reach[m.Block()] {
+					hitsMark = true
+				}
+			}
+			returns := false
+			for _, r := range an.Returns(lk.Parent()) {
+				if reach[r.Block()] {
+					returns = true
+				}
+			}
+			if returns && !hitsMark {
+				return true
+			}
+		}
+	}
+	return false
+}
+
+func c07RegisterOrRollback(c *an.Check) {
+	w := c.W
+	nCsv := 0
+	for _, meth := range []string{"AddWaitForCsvTx", "AddWaitForConfirmationTx"} {
+		isCsv := meth == "AddWaitForCsvTx"
+		for _, fn := range implementers(w, "swap", "TxWatcher", meth) {
+			if isDummy(w, fn) {
+				continue
+			}
+			if isCsv {
+				nCsv++
+			}
+			name := w.FuncName(fn)
+			ops := c07OpsOf(fn)
+			// calls of fn that mark / delete / test through in-module helpers
+			type viaT struct {
+				call ssa.CallInstruction
+				g    *ssa.Function
+			}
+			var direct []viaT // synchronous callees and defers
+			var gos []ssa.Instruction
+			goFn := map[ssa.Instruction][]*ssa.Function{}
+			for _, call := range an.Calls(fn) {
+				var gs []*ssa.Function
+				gs = append(gs, c07Callees(w, call)...)
+				if mc, ok := call.Common().Value.(*ssa.MakeClosure); ok {
+					if h, ok := mc.Fn.(*ssa.Function); ok {
+						gs = append(gs, h)
+					}
+				}
+				if _, isGo := call.(*ssa.Go); isGo {
+					gos = append(gos, call)
+					goFn[call] = gs
+					continue
+				}
+				for _, g := range gs {
+					direct = append(direct, viaT{call, g})
+				}
+			}
+			fields := map[string]bool{}
+			for f := range ops {
+				fields[f] = true
+			}
+			var fl []string
+			for f := range fields {
+				fl = append(fl, f)
+			}
+			sort.Strings(fl)
+			decided := false
+			for _, field := range fl {
+				o := ops[field]
+				marks := append([]ssa.Instruction{}, o.marks...)
+				deletes := append([]ssa.Instruction{}, o.deletes...)
+				helperTest := false
+				for _, v := range direct {
+					if c07Touches(w, v.g, field, "mark", 0, map[*ssa.Function]bool{}) {
+						marks = append(marks, v.call)
+					}
+					if c07Touches(w, v.g, field, "delete", 0, map[*ssa.Function]bool{}) {
+						deletes = append(deletes, v.call)
+					}
+					if c07Touches(w, v.g, field, "test", 0, map[*ssa.Function]bool{}) {
+						helperTest = true
+					}
+				}
+				tested := false
+				var testPos ssa.Instruction
+				for _, lk := range o.tests {
+					if c07TestReturns(lk, marks) {
+						tested = true
+						testPos = lk
+					}
+				}
+				cons := name + " dedupe map " + field
+				if !isCsv {
+					cons += " (confirmation watch, info)"
+				}
+				report := func(verdict, pos, text string) {
+					decided = true
+					switch {
+					case !isCsv:
+						pre := map[string]string{"ok": "kept", "bad": "NOT kept", "unknown": "not decided"}[verdict]
+						c.Note("C07.R8", cons, pos, "register-or-rollback "+pre+" (information only: the confirmation watch belongs to the taker, not to the refund path, and a restart registers it again): "+text)
+					case verdict == "ok":
+						c.OK("C07.R8", cons, pos, text)
+					case verdict == "bad":
+						c.Bad("C07.R8", cons, pos, text)
+					default:
+						c.Unknown("C07.R8", cons, pos, text)
+					}
+				}
+				switch {
+				case tested && len(marks) == 0:
+					report("ok", w.Pos(testPos.Pos()), "the function returns early when "+field+" holds the swap but never sets an entry of that map itself: the test cannot be made true by this function, nothing blocks a later registration (the map it does set is a different one)")
+					continue
+				case !tested && len(marks) > 0 && helperTest:
+					report("unknown", w.Pos(marks[0].Pos()), "the function sets "+field+" and a helper it calls reads that map: whether this is an 'already registered' test is not interpreted")
+					continue
+				case !tested:
+					continue // a map the function does not use as a registration guard
+				}
+				var goDel, goAny []ssa.Instruction
+				for _, g := range gos {
+					goAny = append(goAny, g)
+					for _, h := range goFn[g] {
+						if c07Touches(w, h, field, "delete", 0, map[*ssa.Function]bool{}) {
+							goDel = append(goDel, g)
+						}
+					}
+				}
+				bad, unk := "", ""
+				for _, m := range marks {
+					for _, r := range an.Returns(fn) {
+						if pathAvoiding(m, r, append(append([]ssa.Instruction{}, deletes...), goAny...)) {
+							bad = w.Pos(c07ReturnPos(r))
+						} else if pathAvoiding(m, r, append(append([]ssa.Instruction{}, deletes...), goDel...)) {
+							unk = w.Pos(c07ReturnPos(r))
+						}
+					}
+				}
+				switch {
+				case bad != "":
+					report("bad", w.Pos(marks[0].Pos()), "the function refuses a swap that is already in "+field+" and enters the swap there, but the return at "+bad+" is reached with the entry still set and before any goroutine was started that would delete it (failed subscription): every later registration for this swap is refused, so the watch can never be (re-)armed and its callback never fires")
+				case unk != "":
+					report("unknown", w.Pos(marks[0].Pos()), "the return at "+unk+" leaves the entry of "+field+" set after a goroutine was started that does not delete it")
+				default:
+					report("ok", w.Pos(marks[0].Pos()), "every return that leaves the entry of "+field+" set happens after the goroutine that deletes it was started")
+				}
+			}
+			if !decided {
+				cons := name + " dedupe map (none)"
+				if isCsv {
+					c.OK("C07.R8", cons, w.Pos(fn.Pos()), "the registration function has no 'already registered' test on a map it sets: nothing to roll back")
+				}
+			}
+		}
+	}
+	c.AtLeast("C07.R8", "AddWaitForCsvTx implementations analysed", nCsv, 3)
+}
+
+// c07ReturnPos: a position for a return (bare returns carry none: use the
+// last positioned instruction of the block).
+func c07ReturnPos(r *ssa.Return) token.Pos {
+	if r.Pos().IsValid() {
+		return r.Pos()
+	}
+	b := r.Block()
+	for i := len(b.Instrs) - 1; i >= 0; i-- {
+		if p := b.Instrs[i].Pos(); p.IsValid() {
+			return p
+		}
+	}
+	return r.Parent().Pos()
 }
 
 // ==== shared-begin: call-chain / guard helpers (the same code, up to the prefix, in each of this author's rule files) ====
